@@ -1309,8 +1309,12 @@ func analyseChanConfinement(as AnalysisSpec, progs []*Program, cs *Contracts, fu
 			switch x := r.(type) {
 			case *ssa.Store:
 				if x.Addr == ssa.Value(al) {
-					if _, ok := x.Val.(*ssa.MakeChan); ok {
+					if mc, ok := x.Val.(*ssa.MakeChan); ok {
 						made = true
+						// the registry hands a response over without waiting: the channel needs a slot for it
+						if c, isConst := mc.Size.(*ssa.Const); !isConst || c.Value == nil || c.Int64() < 1 {
+							o.Result, o.Why = "failed", "result channel made without a buffer slot at "+progs[0].Pos(x.Pos())+" (a response dispatched before the caller waits would be dropped)"
+						}
 					} else {
 						o.Result, o.Why = "failed", "assigned from something other than make(chan) at "+progs[0].Pos(x.Pos())
 					}
